@@ -470,7 +470,7 @@ fn int_atoms() -> Vec<i128> {
 }
 /// float texts that serde_json prints back unchanged
 const FLOAT_ATOMS: [&str; 6] = ["1.5", "-0.25", "3.0", "1e+100", "-1e+100", "2147483648.5"];
-const STR_ATOMS: [&str; 7] = ["", "1", "abc", "RED", "GREEN", "1.5", "true"];
+const STR_ATOMS: [&str; 11] = ["", "1", "abc", "RED", "GREEN", "1.5", "true", "red", "Red", "BLUE", "REDGREEN"];
 
 fn atoms() -> Vec<JV> {
     let mut v = vec![JV::Null, JV::Bool(true), JV::Bool(false)];
@@ -684,7 +684,20 @@ fn wrappings(name: &str) -> Vec<Ty> {
     let nn = || Ty::NonNullNamed(name.to_string());
     let l = |t: Ty| Ty::List(Box::new(t));
     let ll = |t: Ty| Ty::NonNullList(Box::new(t));
-    vec![n(), nn(), l(n()), l(nn()), ll(n()), ll(nn()), l(l(n())), l(ll(nn())), ll(l(nn())), ll(ll(nn()))]
+    vec![n(), nn(), l(n()), l(nn()), ll(n()), ll(nn()), l(l(n())), l(ll(nn())), ll(l(nn())), ll(ll(nn())),
+         // audit G5: the remaining two-layer wrappings (every combination of the three nullability bits)
+         l(l(nn())), l(ll(n())), ll(l(n())), ll(ll(n()))]
+}
+
+/// every wrapping with exactly three list layers (16)
+fn wrappings3(name: &str) -> Vec<Ty> {
+    let mut out = vec![];
+    for bits in 0..16u32 {
+        let mut t = if bits & 1 == 0 { Ty::Named(name.to_string()) } else { Ty::NonNullNamed(name.to_string()) };
+        for k in 1..4 { t = if bits >> k & 1 == 0 { Ty::List(Box::new(t)) } else { Ty::NonNullList(Box::new(t)) }; }
+        out.push(t);
+    }
+    out
 }
 
 fn fixed_schema() -> SchemaDesc {
@@ -781,6 +794,8 @@ pub fn run(ctx: &mut Ctx) {
         for a in &leafs { for b in &leafs { small.push(JV::Arr(vec![a.clone(), b.clone()])); } }
         small.push(JV::Arr(vec![JV::Arr(vec![]), JV::Arr(vec![JV::Int(1), JV::Null])]));
         small.push(JV::Arr(vec![JV::Arr(vec![JV::Arr(vec![JV::Int(1)])])]));
+        for a in &leafs { if *a != JV::Int(1) { small.push(JV::Arr(vec![JV::Arr(vec![JV::Arr(vec![a.clone()])])])); } }
+        small.push(JV::Arr(vec![JV::Arr(vec![JV::Arr(vec![JV::Arr(vec![JV::Int(1)])])])]));
         small.push(JV::Obj(vec![]));
         for a in &leafs {
             small.push(JV::Obj(obj(vec![("x", a.clone())])));
@@ -798,8 +813,17 @@ pub fn run(ctx: &mut Ctx) {
         small.push(JV::Obj(obj(vec![("ps", JV::Arr(vec![JV::Obj(obj(vec![("x", JV::Int(1))])), JV::Null]))])));
     }
     ctx.stat_n("exhaustive_json_values", small.len() as u64);
+    // audit G5: an operation without variables (everything provided is ignored)
+    with_case(ctx, &fixed, &[], |ctx, c| {
+        one(ctx, &fixed, &[], c, &[]);
+        for j in small.iter().take(40) { ctx.stat("no_variables_declared"); one(ctx, &fixed, &[], c, &obj(vec![("v", j.clone())])); }
+    });
     for name in ["Int", "Float", "String", "Boolean", "ID", "Any", "Color", "P", "Q"] {
-        for ty in wrappings(name) {
+        let mut tys = wrappings(name);
+        // three list layers: a representative third in the quick tier, all sixteen in the thorough tier
+        for (k, t) in wrappings3(name).into_iter().enumerate() { if ctx.thorough || k % 5 == 0 { tys.push(t); } }
+        for ty in tys {
+            ctx.stat("exhaustive_wrappings");
             let vars = vec![v("v", ty.clone(), None)];
             with_case(ctx, &fixed, &vars, |ctx, c| {
                 one(ctx, &fixed, &vars, c, &[]);
